@@ -119,6 +119,10 @@ func genC12(c *Ctx) {
 			segStart += r.Intn(1000) // segment grid off the millisecond multiples
 		}
 		cueDur := durs[r.Intn(len(durs))]
+		if r.Intn(6) == 0 {
+			// the segment starts exactly where (or a millisecond around where) the cue of the running second ends
+			segStart = segStart/1000*1000 + cueDur%1000 + r.Pick(0, 0, 0, 1, 999)
+		}
 		line := fmt.Sprintf("cue %d %d %d %d", segStart, segDur, startS, cueDur)
 		out := c.Emit(line, true)
 		if strings.HasPrefix(out, "PANIC") {
